@@ -197,6 +197,11 @@ def finish(pid, tier, seed, cfg, reports, drift, extra, t0):
                     obligations -= 1     # a listed known finding: outside the proved claim, reported as KNOWN-FINDING and under known_findings_hit
                 failed.append((fid, o))
             else:
+                if any(match_finding(k, pid, fid, o) for k in known["findings"]) and \
+                        any(x["result"] == "failed" and any(match_finding(k, pid, fid, x) and match_finding(k, pid, fid, o) for k in known["findings"]) for x in obs):
+                    # the clause of a listed known finding, failed on another path of this function in this run: outside the proved claim as a whole
+                    obligations -= 1
+                    continue
                 undecided.append({"function": fid, "obligation": o["name"], "reason": o.get("reason") or "solver unknown/timeout in z3 and cvc5"})
     for e in extra:
         obligations += e.get("obligations", 0)
